@@ -39,7 +39,19 @@ const (
 	maxFactsPerPredicate = 1 << 32
 	// Limit on the number of arguments a predicate can take.
 	maxArity = 1 << 10
+	// Limit on the length of a line, which holds one printed constant.
+	// WriteTo puts no bound on it, and the scanner's own default (64 KiB)
+	// is less than what a long string or a large list takes.
+	maxLineBytes = 1 << 30
 )
+
+// newLineScanner returns a scanner over the lines of r that accepts lines
+// of up to maxLineBytes.
+func newLineScanner(r io.Reader) *bufio.Scanner {
+	scanner := bufio.NewScanner(r)
+	scanner.Buffer(nil, maxLineBytes)
+	return scanner
+}
 
 // SimpleColumn is a file format to store a knowledge base.
 //
@@ -154,7 +166,7 @@ func (s *SimpleColumnStore) GetFacts(query ast.Atom, cb func(ast.Atom) error) er
 	}
 	defer f.Close()
 
-	scanner := bufio.NewScanner(f)
+	scanner := newLineScanner(f)
 	for i := 0; i < toSkip; i++ {
 		if ok := scanner.Scan(); !ok {
 			return ErrCouldNotRead
@@ -239,7 +251,7 @@ func NewSimpleColumnStore(input func() (io.ReadCloser, error)) (*SimpleColumnSto
 		return nil, err
 	}
 	defer f.Close()
-	scanner := bufio.NewScanner(f)
+	scanner := newLineScanner(f)
 	preds, predFactCount, err := readHeader(scanner)
 	if err != nil {
 		return nil, err
@@ -472,7 +484,7 @@ func readHeader(scanner *bufio.Scanner) ([]ast.PredicateSym, []int, error) {
 
 // ReadInto reads contents in simplecolumn format into a fact store.
 func (sc SimpleColumn) ReadInto(r io.Reader, store FactStore) error {
-	scanner := bufio.NewScanner(r)
+	scanner := newLineScanner(r)
 
 	preds, predNumFacts, err := readHeader(scanner)
 	if err != nil {
